@@ -100,6 +100,15 @@ func (r *R) Cap(reason string) {
 
 // Violate records a violation. At most 3 per signature are kept in full.
 func (r *R) Violate(sig, detail string, replay any) {
+	if os.Getenv("VERIF_ONLY_OWNERSHIP") == "1" {
+		// run on behalf of C20: only memory-ownership oracles count here; the functional oracles belong to the owning property
+		if !strings.Contains(sig, ":ownership") && !strings.Contains(sig, ":tainted") && !strings.Contains(sig, ":panic") {
+			return
+		}
+		if i := strings.IndexByte(sig, ':'); i > 0 {
+			sig = "C20:" + sig[:i] + sig[i:]
+		}
+	}
 	r.mu.Lock()
 	r.ViolTotal++
 	r.sigSeen[sig]++
